@@ -3,6 +3,7 @@ package expr
 // Nondeterministic inputs and verification primitives. These declarations have no bodies:
 // the symbolic interpreter (gosym) intercepts them; for native replay the file
 // zz_verif_native.go (generated) gives them bodies that read the solver's assignment.
+// GENERATED from /verif/tools/sym.go.tmpl by /verif/tools/gen_sym.sh - do not edit.
 
 func vfInt(name string) int
 func vfInt8(name string) int8
@@ -17,7 +18,13 @@ func vfUint64(name string) uint64
 func vfFloat32(name string) float32
 func vfFloat64(name string) float64
 func vfBool(name string) bool
+func vfByte(name string) byte
+func vfRune(name string) rune
 func vfChoice(name string, n int) int
+func vfParamStr(name string) string
+func vfParamInt(name string) int
+func vfUFInt(name string, args ...int) int
+func vfUFBool(name string, args ...int) bool
 func vfAssume(ok bool)
 func vfAssert(ok bool, id string)
 func vfReach(id string)
